@@ -170,6 +170,26 @@ def oracle_problem(rng, out):
     if lang != allowed:
         out.append(dict(kind="space-not-exact", input=inp,
                         detail="in space not allowed: %s ; allowed not in space: %s" % (sorted(lang - allowed)[:3], sorted(allowed - lang)[:3])))
+    # "satisfies all of those constraints" as the constraint objects themselves judge it (their evaluate(), on the
+    # objects initialised for this problem): every sampled member of the space passes all of them, every sampled
+    # non-member fails at least one
+    if lang == allowed:
+        members = sorted(lang)
+        rng.shuffle(members)
+        others = [hard.rand_seq(rng, n) for _ in range(12)]
+        for s in [seq] + members[:12] + others:
+            try:
+                verdict = all(bool(c.evaluate(hard.Stub(s)).passes) for c in stub.constraints)
+            except Exception:
+                continue
+            # an explicit start-codon policy ("keep", "ATG", [...]) restricts the first codon beyond what evaluate()
+            # tests (any start codon of the table reads as M): only "member => passes" is claimed there
+            policy = any(d["kind"] == "cds" and d.get("start_codon") is not None for d in descs)
+            if verdict != (s in lang) and not (policy and verdict and s not in lang):
+                out.append(dict(kind="space-vs-evaluate", input=inp,
+                                detail="%s is %s the space but the constraints' evaluate() says %s" % (
+                                    s, "in" if s in lang else "outside", "pass" if verdict else "fail")))
+                break
     # the problem's initial sequence lies in the space, for any random stream
     np.random.seed(rng.randint(0, 10 ** 6))
     try:
